@@ -500,6 +500,22 @@ def _r6(ctx, ew):
         admits_equal = (on_true and d[1] in ("Ge", "Le")) or (not on_true and d[1] in ("Gt", "Lt"))
         ctx.check(admits_equal, "R6", "a-name-equal-to-the-suffix-matches", ctx.where(b),
                   "the length guard is len(name) %s len(suffix) on the comparing edge: a name with exactly the suffix's labels must be compared, not refused" % op)
+    # idiom 3: `self.len().checked_sub(other.len())` — the comparison is made under `Some(skip)`, which is len(self) >= len(other)
+    # (equality included: Some(0))
+    for sbb, tm in b.terms():
+        if tm["k"] != "switch":
+            continue
+        d = norm(T.at_term(tm["discr"], sbb))
+        c = norm(d[1]) if d[0] == "discr" else None
+        if not (c and c[0] == "call" and str(c[1]).endswith("::checked_sub") and len(c[2]) == 2
+                and all(any(y[0] == "call" and str(y[1]).endswith("::len") for y in subterms(norm(x))) for x in c[2])):
+            continue
+        if not any(y[0] == "param" and y[1] == 1 for y in subterms(norm(c[2][0]))) or any(y[0] == "param" and y[1] == 1 for y in subterms(norm(c[2][1]))):
+            continue
+        good = discr_edges(cfg, sbb, 1)
+        cmp_blocks = [bb for bb, t2 in b.calls() if (callee_name(t2) or "").rsplit("::", 1)[-1] in ("all", "zip", "eq", "eq_ignore_ascii_case")]
+        if cmp_blocks and all(edge_dominated(cfg, good, bb) for bb in cmp_blocks):
+            guarded = True
     zip_only = any(n.rsplit("::", 1)[-1] == "zip" for n in names)
     ctx.check(guarded, "R6", "shorter-name-never-matches" if guarded else "shorter-name-can-match:%s" % ("zip-stops-at-shorter-list" if zip_only else "no-length-guard"),
               ctx.where(b),
